@@ -30,7 +30,7 @@ def peer_frames(n, start=1, kind="APP"):
     return [p.frame(kind, start + i) for i in range(n)]
 
 
-def decode_record(rid, buf, orig=None, maxcalls=None):
+def decode_record(rid, buf, orig=None, maxcalls=None, follow=()):
     """Repeated decode(silent=True) until nothing is consumed and no message is returned."""
     c = Codec(FIXProtocol44())
     rem = bytes(buf)
@@ -56,7 +56,7 @@ def decode_record(rid, buf, orig=None, maxcalls=None):
             terminated = True
             break
     return {"id": rid, "kind": "decode", "buf": list(buf), "calls": calls, "terminated": terminated,
-            "orig": list(orig) if orig is not None else []}
+            "orig": list(orig) if orig is not None else [], "follow": [list(f) for f in follow]}
 
 
 def live_record(rid, chunks, expect_seqs, logon_first=True):
